@@ -19,3 +19,6 @@ theories/Pipe/Closed.vos theories/Pipe/Closed.vok theories/Pipe/Closed.required_
 theories/Pipe/Terminal.vo theories/Pipe/Terminal.glob theories/Pipe/Terminal.v.beautified theories/Pipe/Terminal.required_vo: theories/Pipe/Terminal.v theories/Pipe/Model.vo theories/Pipe/Base.vo theories/Pipe/Data.vo theories/Pipe/Notify.vo theories/Pipe/Token.vo theories/Pipe/Closed.vo
 theories/Pipe/Terminal.vio: theories/Pipe/Terminal.v theories/Pipe/Model.vio theories/Pipe/Base.vio theories/Pipe/Data.vio theories/Pipe/Notify.vio theories/Pipe/Token.vio theories/Pipe/Closed.vio
 theories/Pipe/Terminal.vos theories/Pipe/Terminal.vok theories/Pipe/Terminal.required_vos: theories/Pipe/Terminal.v theories/Pipe/Model.vos theories/Pipe/Base.vos theories/Pipe/Data.vos theories/Pipe/Notify.vos theories/Pipe/Token.vos theories/Pipe/Closed.vos
+theories/Pipe/Drop.vo theories/Pipe/Drop.glob theories/Pipe/Drop.v.beautified theories/Pipe/Drop.required_vo: theories/Pipe/Drop.v theories/Pipe/Model.vo theories/Pipe/Base.vo theories/Pipe/Notify.vo theories/Pipe/Terminal.vo
+theories/Pipe/Drop.vio: theories/Pipe/Drop.v theories/Pipe/Model.vio theories/Pipe/Base.vio theories/Pipe/Notify.vio theories/Pipe/Terminal.vio
+theories/Pipe/Drop.vos theories/Pipe/Drop.vok theories/Pipe/Drop.required_vos: theories/Pipe/Drop.v theories/Pipe/Model.vos theories/Pipe/Base.vos theories/Pipe/Notify.vos theories/Pipe/Terminal.vos
